@@ -77,14 +77,18 @@ CLAIMED = {
                      'exhaustive enumeration of small images against a union-find oracle.',
                 note='scipy label/find_objects are exercised bounded, not assumed; non-finite = NaN '
                      '(+-inf outside the real-number model)'),
-    'C05': dict(engine='coherence', technique=f'{_T} (cache-coherence class invariant) + {_B}',
+    'C05': dict(engine='coherence+pyvc', technique=f'{_T} (cache-coherence class invariant, '
+                                                   f'lookup tables, label sets) + {_B}',
                 text='Proved: every public SegmentationImage mutator resets (or re-seeds) all cached '
                      'lazy attributes that read the fields it writes, with no stale read in between; '
                      'the lookup tables of reassign_labels / relabel_consecutive have the '
                      'documented effect on every label array (listed labels -> new label, k-th '
                      'label -> start+k, everything else unchanged); the border mask of '
                      'remove_border_labels is True exactly within border_width of an edge for every '
-                     'shape (zero width selects nothing). Other operations and all '
+                     'shape (zero width selects nothing); keep_labels / remove_masked_labels hand '
+                     'remove_labels exactly the complement / the touching labels without a pixel '
+                     'outside the mask, missing_labels lists exactly the absent numbers in '
+                     '1..max_label in increasing order. Other operations and all '
                      'attributes vs a fresh object are checked bounded over all histories of '
                      'length <= 2 (sampled length 3).',
                 note='re-seeded caches assumed equal to their getters (bounded check); known '
@@ -117,10 +121,12 @@ CLAIMED = {
                      'under renumbering. The defining formulas are checked bounded with an '
                      'exact-rational pixel-loop oracle incl. row locality.',
                 note='formulas bounded only; known finding F41 (thin-source covariance NaN)'),
-    'C08': dict(engine='effects', technique=f'{_T} (ownership of shared references) + {_B}',
+    'C08': dict(engine='effects+pyvc', technique=f'{_T} (ownership of shared references, per-row '
+                                                 f'bounding boxes) + {_B}',
                 text='Proved: every attribute __getitem__ copies to the child by reference is never '
-                     'mutated in place by a public method (SourceCatalog, ApertureStats, finder '
-                     'catalogs). Commutation cat[idx].p == cat.p[idx] is checked bounded for every '
+                     'mutated in place (directly or through a view) by a public method '
+                     '(SourceCatalog, ApertureStats, finder catalogs); SourceCatalog bounding boxes '
+                     'of row k come from row k\'s own slices. Commutation cat[idx].p == cat.p[idx] is checked bounded for every '
                      'public property x index form x evaluation order.',
                 note='init_attr tuples are literals (checked); commutation is bounded'),
     'C09': dict(engine='coherence', technique=f'{_T} (getter purity, configuration immutability, '
@@ -129,7 +135,8 @@ CLAIMED = {
                      'PSFPhotometry, IterativePSFPhotometry, star finders, Ellipse, GriddedPSFModel, '
                      'LocalBackground): getters destroy nothing a later access reads (z3 on path '
                      'conditions), calls never rebind configuration, every field a call writes is '
-                     'written before it is read. Histories of <= 4 reads / <= 3 calls vs fresh '
+                     'written before it is read; Ellipse.fit_image / fit_isophote leave nothing '
+                     'in the geometry except the two stores of known finding F22. Histories of <= 4 reads / <= 3 calls vs fresh '
                      'objects checked bounded.',
                 note='guards other than cache/None tests are opaque atoms; known finding F22'),
     'C10': dict(engine='effects', technique=f'{_T} (modifies = {{}} for ~800 public entry points) '
@@ -142,7 +149,9 @@ CLAIMED = {
     'C11': dict(engine='pyvc', technique=f'{_T} (exclusion rule, threshold; getter purity) + {_B}',
                 text='Proved for all inputs: a box is excluded iff more than exclude_percentile '
                      'percent of its pixels are masked or it is fully masked; the good-pixel '
-                     'threshold formula; Background2D getter purity. Mesh values, equivariance, '
+                     'threshold formula; the mask used for the statistics is pixel by pixel the '
+                     'union of input, coverage and invalid-value masks; the full-size map holds '
+                     'fill_value exactly on coverage-mask pixels; Background2D getter purity. Mesh values, equivariance, '
                      'fill and range relations are checked bounded against a per-box oracle.',
                 note='A-real; numerical relations bounded only'),
     'C12': dict(engine='pyvc', technique=f'{_T} (_make_mask, configuration, per-call reset, '
@@ -150,6 +159,9 @@ CLAIMED = {
                 text='Proved: the ungroup indices are a permutation listing the fitted rows by '
                      'increasing source id and results are gathered through it; '
                      '_make_mask returns mask | non-finite (None iff nothing to mask), '
+                     'per row flags 1 / 2 / 4 follow npixfit, the image bounds (x against columns) '
+                     'and the flux sign; LocalBackground hands the caller\'s data and mask to the '
+                     'annulus statistics, one estimate per position; '
                      'PSFPhotometry.__call__ rebinds no configuration, resets its results, modifies '
                      'no argument. Recovery of rendered scenes, grouping ids vs brute-force single '
                      'linkage, flags and ordering are checked bounded.',
@@ -162,7 +174,9 @@ CLAIMED = {
                      'agree; linear in flux, non-negative, point-symmetric about (x_0, y_0); '
                      'ImagePSF returns fill_value outside and maps sample points to integer knots, '
                      'its origin is stored as given in (x, y) order; '
-                     'the four bilinear weights of GriddedPSFModel; configuration immutability. '
+                     'the four bilinear weights of GriddedPSFModel, its origin (array centre, '
+                     'half-integers for even sizes) and the grid cell chosen for a position (the '
+                     'one containing it, else the nearest); configuration immutability. '
                      'Normalisation sums and gridded interpolation are checked bounded.',
                 note='integrals / sums are bounded only; known finding F24 (rotated GaussianPRF)'),
     'C14': dict(engine='pyvc+coherence', technique=f'{_T} (find_peaks candidate mask, brightest '
@@ -205,7 +219,9 @@ CLAIMED = {
                      'handed to the centroid function for a source are those under that source\'s '
                      'own box (footprint under the small slices), and centroid_com weighs masked '
                      'and non-finite pixels '
-                     'by exactly zero and every other pixel by its value. Exactness on symmetric / '
+                     'by exactly zero and every other pixel by its value; centroid_quadratic fits on a '
+                     'full-size box inside the image that contains the peak pixel and returns the '
+                     'stationary point (a maximum) of the fitted polynomial. Exactness on symmetric / '
                      'quadratic sources is checked bounded.',
                 note='Gaussian fits bounded only'),
     'C18': dict(engine='effects+pyvc', technique=f'{_T} (frames, loop independence, residual = '
@@ -230,7 +246,9 @@ CLAIMED = {
     'C20': dict(engine='pyvc+coherence', technique=f'{_T} (to_polar scalar and array forms, '
                                                    f'configuration immutability, frames) + {_B}',
                 text='Proved: the scalar and the vectorised ellipse coordinate transforms equal '
-                     'one closed form (pointwise for arrays); Ellipse never rebinds its '
+                     'one closed form (pointwise for arrays); update_sma / reset_sma step strictly '
+                     'outwards / inwards and undo each other; an eps = 0 crossing rotates the angle '
+                     'by a quarter turn within [0, pi); Ellipse never rebinds its '
                      'configuration and fit_image does not write the image; the geometry frame '
                      'obligations are refuted (known finding F22). Recovery of rendered ellipses '
                      'incl. fix_* flags with non-iterative outer isophotes is checked bounded.',
